@@ -1564,10 +1564,24 @@ func (ft *ftrans) callFn(g *fn, recv *val, args []ast.Expr, e env, pre *[]prelud
 	if recv != nil {
 		as = append(as, atom(recv.s))
 	}
-	for _, a := range args {
+	off := 0
+	if recv != nil {
+		off = 1
+	}
+	for i, a := range args {
 		v := ft.expr(a, e, pre)
 		if v.opt != nil {
 			failf("a multi-valued call as an argument is outside the subset")
+		}
+		if off+i < len(g.params) {
+			pt := g.params[off+i].typ
+			if v.t == "nil" {
+				v = ft.coerce(pt, v)
+			} else if v.cv != nil && !v.cv.isStr && uintBits(ft.t.under(pt)) > 0 {
+				// an untyped constant where an unsigned integer is expected: the literal (a natural number)
+				ft.assignable(pt, val{s: v.s, t: "untyped-int", cv: v.cv})
+				v = val{s: v.cv.i.String(), t: pt, cv: v.cv}
+			}
 		}
 		as = append(as, atom(v.s))
 	}
@@ -1666,6 +1680,15 @@ func (ft *ftrans) call(c *ast.CallExpr, e env, pre *[]prelude) val {
 					failf("new(%s): pointers to %s have a configured reading", tp, tp)
 				}
 				return val{s: ft.zero(tp), t: "*" + tp}
+			}
+			if f.Name == "make" && f.Obj == nil && (len(c.Args) == 2 || len(c.Args) == 3) {
+				// make([]T, 0[, cap]): the empty slice
+				if at, isArr := c.Args[0].(*ast.ArrayType); isArr && at.Len == nil {
+					if cv := ft.constOf(c.Args[1], e); cv != nil && !cv.isStr && cv.i.Sign() == 0 {
+						return val{s: "[]", t: "[]" + ft.t.typeOf(ft.f.pkg, ft.f.file, at.Elt)}
+					}
+				}
+				failf("make other than make([]T, 0) is outside the subset")
 			}
 			if f.Name == "len" && len(c.Args) == 1 && f.Obj == nil {
 				v := ft.expr(c.Args[0], e, pre)
@@ -2240,6 +2263,9 @@ func (ft *ftrans) coerce(to string, v val) val {
 		}
 		if strings.HasPrefix(ft.t.under(to), "map[") {
 			return val{s: "none", t: to}
+		}
+		if strings.HasPrefix(ft.t.under(to), "[]") {
+			return val{s: "[]", t: to} // a nil slice is an empty slice for everything the subset can observe
 		}
 		failf("nil where a value of type %q is needed is outside the subset", to)
 	}
